@@ -146,6 +146,9 @@ def cubes_history(tier, seed):
                             'files': files})
             out.append({'k': 2, 'first': first, 'start_main': True,
                         'kind': 'deprecated', 'files': files})
+            if first < len(files[1:]) * len(FILE_OPS) + 2:
+                out.append({'k': 2, 'first': first, 'start_main': False,
+                            'kind': 'deprecated', 'files': files[1:]})
     else:
         files = FILES
         n = len(files) * len(FILE_OPS) + 2
